@@ -116,7 +116,10 @@ def write_bytes(
         format_spec = (
             f"0{len(data) * 2}x" if output_format == "hex" else f"0{len(data) * 8}b"
         )
-        formatted_data = format(int.from_bytes(data, "big"), format_spec)
+        # empty data is written as empty string (not "0")
+        formatted_data = (
+            format(int.from_bytes(data, "big"), format_spec) if data else ""
+        )
         formatted_data += os.linesep
         if file_ is not None:
             file_.write(formatted_data)
